@@ -164,13 +164,39 @@ def directed_url_switch(mode, kind='incremental-differs-from-clean'):
     finally:
         shutil.rmtree(base, ignore_errors=True)
 
+def directed_repeat(mode):
+    """recipes of every step shape (package only / build+package / deterministic checkout+package / all three / no steps
+    at all but dependencies): an immediately repeated build of the unchanged project executes nothing"""
+    p = P.Project(prefix='c01r-'); log = []
+    try:
+        R = {'r0': {'root': True, 'depends': ['ponly', 'bp', 'cp', 'cbp', 'grp'], 'buildScript': 'cat "$2"/result.txt "$3"/result.txt "$4"/result.txt "$5"/result.txt > out.txt\n', 'packageScript': 'cp "$1"/out.txt result.txt\n'},
+             'ponly': {'packageScript': 'echo ponly > result.txt\n'},
+             'bp': {'buildScript': 'echo bp > out.txt\n', 'packageScript': 'cp "$1"/out.txt result.txt\n'},
+             'cp': {'checkoutDeterministic': True, 'checkoutScript': 'echo cp > s.txt\n', 'packageScript': 'echo cp > result.txt\n'},
+             'cbp': {'checkoutDeterministic': True, 'checkoutScript': 'echo cbp > s.txt\n', 'buildScript': 'cp "$1"/s.txt out.txt\n', 'packageScript': 'cp "$1"/out.txt result.txt\n'},
+             'grp': {'depends': ['ponly', 'bp']}}
+        p.write({'recipes': R, 'config': {}})
+        for extra in ([], ['-j', '3']):
+            rc, out = p.bob(mode, 'r0', *extra); log.append('bob %s r0 %s' % (mode, ' '.join(extra)))
+            if rc != 0: return None, ['(project does not build: %s)' % out[-200:].replace('\n', ' ')]
+            for rep_ in (1, 2):
+                rc2, out2 = p.bob(mode, 'r0', *extra); log.append('again')
+                ex = H.executed_steps(out2)
+                if rc2 != 0 or ex:
+                    return {'kind': 'repeated-build-executes-steps', 'executed': ex[:6], 'mode': mode, 'history': log, 'what': 'recipes with fewer than three steps (package only, no checkout, ...)'}, log
+        return None, log
+    except Exception as ex:
+        return None, ['harness problem: %r' % (ex,)]
+    finally:
+        p.cleanup()
+
 def replay(rep):
     seed = int(os.environ.get('VERIF_SEED', '0') or 0)
     thorough = os.environ.get('VERIF_TIER') == 'thorough'
     n = 40 if thorough else 12; steps = 5 if thorough else 3
     tried = 0; distinct = set(); samples = []; problems = 0
     with cf.ThreadPoolExecutor(max_workers=8) as ex:
-        futs = [ex.submit(directed_checkout_edits, 'dev'), ex.submit(directed_checkout_edits, 'build'), ex.submit(directed_scm_set_edits, 'dev'), ex.submit(directed_scm_set_edits, 'build'), ex.submit(directed_url_switch, 'dev')] + [ex.submit(one_history, seed * 1000 + i, steps, 'dev' if i % 3 else 'build') for i in range(n)]
+        futs = [ex.submit(directed_checkout_edits, 'dev'), ex.submit(directed_checkout_edits, 'build'), ex.submit(directed_scm_set_edits, 'dev'), ex.submit(directed_scm_set_edits, 'build'), ex.submit(directed_url_switch, 'dev'), ex.submit(directed_repeat, 'dev'), ex.submit(directed_repeat, 'build')] + [ex.submit(one_history, seed * 1000 + i, steps, 'dev' if i % 3 else 'build') for i in range(n)]
         for f in cf.as_completed(futs):
             w, log = f.result(); tried += 1
             if log and (str(log[-1]).startswith('harness problem') or str(log[-1]).startswith('(project does not') or str(log[-1]).startswith('(clean build')): problems += 1; continue
@@ -179,5 +205,5 @@ def replay(rep):
             if w is not None: return {'reproduced': True, 'tried': tried, 'witness': w}
     if problems > tried // 2: return {'reproduced': None, 'detail': 'harness problems in %d of %d cases' % (problems, tried)}
     return {'reproduced': False, 'tried': tried, 'distinct': len(distinct), 'samples': samples,
-            'bound': '2 directed histories of deterministic-checkout edits (script, checkoutVars value, pinned git tag, revert) + 2 directed histories changing the set of SCMs of a checkout (remove, move, if, add back) + 1 url SCM history (url changes with the same file name, with/without digest) + %d generated projects (2-4 recipes), edit histories of %d steps, develop and release mode' % (n, steps),
+            'bound': '2 directed histories of deterministic-checkout edits (script, checkoutVars value, pinned git tag, revert) + 2 directed histories changing the set of SCMs of a checkout (remove, move, if, add back) + 1 url SCM history (url changes with the same file name, with/without digest) + 2 repeated-build runs over recipes of every step shape + %d generated projects (2-4 recipes), edit histories of %d steps, develop and release mode' % (n, steps),
             'detail': 'dist content after every incremental build equals a clean build; repeated builds execute nothing'}
